@@ -10,6 +10,7 @@ class C24(Spec):
         "C24.lanes_sorted_nested",
         "C24.lane0_eq_sorted_insert",
         "C24.find_correct",
+        "C24.update_array_correct",
         "C24.queue_refines_sortedlist",
         "C24.queue_step_refines",
         "C24.queue_observers",
